@@ -188,6 +188,24 @@ pub fn c15(g: &mut Gen) {
         lines.push("sp A ser".to_string());
         g.group(lines);
     }
+    // heavily overfull multisets over universes of SEVERAL HUNDRED positions (dozens of copies per position, some positions
+    // absent): low width 1, so `high` is dense in ones and sparse in zeros — more than 64 unset bits, fewer than one per word
+    for (n, copies) in [(600u64, 40u64), (300, 0), (1200, 33)] {
+        let mut vals: Vec<u64> = Vec::new();
+        for v in 0..n { let c = if copies > 0 { copies } else { (v * 37 + 11) % 90 }; for _ in 0..c { vals.push(v); } }
+        for via in ["build", "from_iter"] {
+            let mut lines = if via == "build" { vec![format!("sp A build {} 1 {}", n, vals_str(&vals))] } else { vec![format!("sp A from_iter {}", vals_str(&vals))] };
+            lines.push("sp A len".to_string()); lines.push("sp A ones".to_string()); lines.push("sp A zeros".to_string());
+            for x in (0..=n).step_by(7).chain([127u64, 128, 129, 255, 256, n - 1, n].into_iter()) {
+                if x < n { lines.push(format!("sp A get {}", x)); }
+                lines.push(format!("sp A rank {}", x)); lines.push(format!("sp A pred {}", x)); lines.push(format!("sp A succ {}", x));
+            }
+            let m = vals.len() as u64;
+            for r in (0..m).step_by(std::cmp::max(1, m as usize / 60)) { lines.push(format!("sp A select {}", r)); }
+            lines.push(format!("sp A it bits : {} l", vec!["n"; n as usize].join(" ")));
+            g.group(lines);
+        }
+    }
     // a LARGE overfull multiset: low width 1, `high` has several hundred thousand bits and its unset bits form one long,
     // partially filled select superblock
     if g.thorough {
